@@ -49,7 +49,7 @@ func cmdPriorityMatrix(args []string) error {
 			return rejectedErr("pool rule %q rejected: %v", t, err)
 		}
 		if err = checkRendered(&pool[i], r); err != nil {
-			return fmt.Errorf("renderer self-check %q: %v", t, err)
+			return rejectedErr("the rule %q is parsed differently from what the specification says: %v", t, err)
 		}
 		rs[i] = r
 		tr.Texts = append(tr.Texts, t)
